@@ -85,7 +85,7 @@ func TestVerifC01_Sample(t *testing.T) {
 
 		family := rapid.SampledFrom([]string{
 			"neighbour", "transposed", "axisflag", "sibling", "sharekeep-proofother", "proofshift",
-			"bytes", "honest-other-axis", "mirror",
+			"bytes", "honest-other-axis", "mirror", "axis-invalid",
 		}).Draw(t, "family")
 		var resp shwap.Sample
 		decoded := true
@@ -141,6 +141,30 @@ func TestVerifC01_Sample(t *testing.T) {
 		case "honest-other-axis":
 			resp, err = acc.SampleForProofAxis(shwap.SampleCoords{Row: r, Col: c}, 1-honestAxis)
 			c01must(t, err)
+		case "axis-invalid":
+			// honest material of another cell of the same row or column under an axis value that is
+			// neither ROW nor COL (the wire field is a signed enum), sent through the wire encoding
+			rr, cc := r, c
+			if rapid.Bool().Draw(t, "othercellrow") {
+				rr = drawCoord(t, "orow", w)
+			} else {
+				cc = drawCoord(t, "ocol", w)
+			}
+			src := rapid.SampledFrom([]rsmt2d.Axis{rsmt2d.Row, rsmt2d.Col}).Draw(t, "srcaxis")
+			resp, err = acc.SampleForProofAxis(shwap.SampleCoords{Row: rr, Col: cc}, src)
+			c01must(t, err)
+			resp.ProofType = rsmt2d.Axis(rapid.SampledFrom([]int{-1, 2, 3, 7, 255, -128}).Draw(t, "axisvalue"))
+			var wb bytes.Buffer
+			if _, err := resp.WriteTo(&wb); err != nil {
+				decoded = false
+				break
+			}
+			var dec shwap.Sample
+			if _, err := dec.ReadFrom(bytes.NewReader(wb.Bytes())); err != nil {
+				decoded = false
+				break
+			}
+			resp = dec
 		case "bytes":
 			var buf bytes.Buffer
 			_, err := honest.WriteTo(&buf)
@@ -406,7 +430,7 @@ func TestVerifC01_RowNamespaceData(t *testing.T) {
 			t.Fatalf("C01 honest row namespace data differs from the committed shares: %v", err)
 		}
 		family := rapid.SampledFrom([]string{"otherrow", "otherns", "dropshare", "dupshare", "reorder", "sibling", "proofshift", "bytes",
-			"absence+shares", "absence+shares"}).Draw(t, "family")
+			"absence+shares", "absence+shares", "noproof"}).Draw(t, "family")
 		resp := shwap.RowNamespaceData{Shares: append([]libshare.Share(nil), honest.Shares...), Proof: honest.Proof}
 		decoded := true
 		switch family {
@@ -474,6 +498,20 @@ func TestVerifC01_RowNamespaceData(t *testing.T) {
 				d = 1
 			}
 			resp.Proof = cloneProof(honest.Proof, d, d)
+		case "noproof":
+			// the honest shares with the proof left out of the message (decoders accept that shape)
+			resp.Proof = nil
+			var wb bytes.Buffer
+			if _, err := resp.WriteTo(&wb); err != nil {
+				decoded = false
+				break
+			}
+			var dec shwap.RowNamespaceData
+			if _, err := dec.ReadFrom(bytes.NewReader(wb.Bytes())); err != nil {
+				decoded = false
+				break
+			}
+			resp = dec
 		case "absence+shares":
 			// the honest proof of absence of a neighbouring absent namespace in a covering row, with
 			// shares attached; requested for that absent namespace
